@@ -35,6 +35,47 @@ def op(name, **kw):
     return deco
 
 
+class IdSim:
+    """Seam for object identity.  CPython may hand the id() of a dead object to a new one; whether it does depends
+    on the allocator and on everything else the process allocated, which a simulated history does not reproduce.
+    Installed as the module attribute `id` of every library module (the library itself never calls id(); a change
+    that keys a cache on id() meets it), it implements the contract adversarially and deterministically: ids are
+    unique among simultaneously live objects, and a new object of a type ALWAYS gets the id of the most recently
+    died object of that type, if there is one."""
+
+    def __init__(self):
+        import weakref
+        self.weakref = weakref
+        self.live = {}          # real id -> simulated id, for live weak-referenceable objects
+        self.retired = {}       # type name -> stack of simulated ids whose objects died
+        self.next = 10 ** 9
+        self.reused = 0
+
+    def __call__(self, obj):
+        rid = id(obj)
+        sid = self.live.get(rid)
+        if sid is not None:
+            return sid
+        tn = type(obj).__name__
+        try:
+            stack = self.retired.get(tn)
+            if stack:
+                sid = stack.pop()
+                self.reused += 1
+            else:
+                self.next += 16
+                sid = self.next
+            self.weakref.finalize(obj, self._died, rid, tn, sid)
+        except TypeError:       # not weak-referenceable (list, dict, int ...): the real id
+            return rid
+        self.live[rid] = sid
+        return sid
+
+    def _died(self, rid, tn, sid):
+        self.live.pop(rid, None)
+        self.retired.setdefault(tn, []).append(sid)
+
+
 class SimInterrupt(KeyboardInterrupt):
     """Injected at a statement boundary of library code (Ctrl-C / 'interrupt kernel')."""
 
@@ -100,12 +141,16 @@ class Ctx:
             self.watch("p:" + name, obj)
         self._install_fs()
 
-    # ---- file seam
+    # ---- file seam and identity seam
     def _install_fs(self):
         import CircuitCalculator.dump_load as dl
         import CircuitCalculator.Network.loaders as ld
         dl.open = self.disk.open
         ld.open = self.disk.open
+        self.idsim = IdSim()
+        for name, m in list(sys.modules.items()):
+            if m is not None and (name == "CircuitCalculator" or name.startswith("CircuitCalculator.")):
+                m.id = self.idsim
 
     # ---- O2
     def watch(self, name, obj):
@@ -283,7 +328,7 @@ def exec_step(ctx, step, host=None):
     except RecursionError:
         raise
     except Exception as e:
-        res = e
+        res = e.with_traceback(None)
         status = "exc"
     fired = ctx.disk.disarm()
     if seam.raised and status != "skip":
@@ -446,6 +491,8 @@ def run_history(plan):
         if now != key:
             rec["o6"] = True
     ctx.probes["module_fingerprints"] = len(ctx.fingerprints)
+    if ctx.idsim.reused:
+        ctx.probes["simulated_id_reuse"] = ctx.idsim.reused
     return {"records": ctx.records, "events": [list(map(_ev, e)) for e in ctx.events], "probes": ctx.probes,
             "disk_probes": ctx.disk.probes, "open_handles": ctx.disk.open_handles}
 
